@@ -1,0 +1,73 @@
+//go:build verif
+
+package fasthttp
+
+// Contracts for the byte-level helpers of header.go and cookie.go, checked by /verif/gocv
+// (comment-only; compiled to nothing).
+
+//@ spec crlffree(b []byte, n int) bool = forall j in [0,n): b[j] != 13 && b[j] != 10
+//@ spec iscrlf(c int) bool = c == 13 || c == 10
+
+//@ func removeNewLines results r
+//@   property C05
+//@   modifies raw
+//@   ensures[same]   sameSlice(r, raw)
+//@   ensures[clean]  crlffree(r, len(r))
+//@   ensures[others] forall j in [0,len(raw)): !iscrlf(old(raw[j])) ==> raw[j] == old(raw[j])
+//@   ensures[spaces] forall j in [0,len(raw)): iscrlf(old(raw[j])) ==> raw[j] == 32
+//@   loop 1:
+//@     invariant[range]  start <= i && i <= len(raw) || start > len(raw)
+//@     invariant[prefix] forall j in [0,i): !iscrlf(raw[j])
+//@     invariant[others] forall j in [0,len(raw)): !iscrlf(old(raw[j])) ==> raw[j] == old(raw[j])
+//@     invariant[spaces] forall j in [0,len(raw)): iscrlf(old(raw[j])) ==> raw[j] == 32 || (j >= i && raw[j] == old(raw[j]))
+//@     decreases len(raw) - i
+
+//@ func removeSemicolons results r
+//@   property C06
+//@   modifies raw
+//@   ensures[same]   sameSlice(r, raw)
+//@   ensures[clean]  forall j in [0,len(r)): r[j] != ';'
+//@   ensures[others] forall j in [0,len(raw)): old(raw[j]) != ';' ==> raw[j] == old(raw[j])
+//@   ensures[spaces] forall j in [0,len(raw)): old(raw[j]) == ';' ==> raw[j] == 32
+//@   loop 1:
+//@     invariant[prefix] forall j in [0,i): raw[j] != ';'
+//@     invariant[others] forall j in [0,len(raw)): old(raw[j]) != ';' ==> raw[j] == old(raw[j])
+//@     invariant[spaces] forall j in [0,len(raw)): old(raw[j]) == ';' ==> raw[j] == 32 || (j >= i && raw[j] == old(raw[j]))
+
+//@ func validHeaderFieldByte results ok
+//@   property C32 C05
+//@   pure
+//@   ensures ok == istchar(c)
+
+//@ spec canon(b []byte, j int) int = (j == 0 || b[j-1] == '-') ? ((97 <= b[j] && b[j] <= 122) ? b[j] - 32 : b[j]) :
+//@                                                                 ((65 <= b[j] && b[j] <= 90) ? b[j] + 32 : b[j])
+//@ spec alltchar(b []byte, n int) bool = forall j in [0,n): istchar(b[j])
+
+//@ func normalizeHeaderKeyValidated
+//@   property C32
+//@   uses lemma byteTables
+//@   modifies b
+//@   ensures[off]   disableNormalizing ==> unchanged(b)
+//@   ensures[canon] !disableNormalizing ==> forall j in [0,len(b)): b[j] == canon(old(b), j)
+//@   loop 1:
+//@     invariant[done] forall j in [0,i): b[j] == canon(old(b), j)
+//@     invariant[rest] forall j in [i,len(b)): b[j] == old(b[j])
+//@     invariant[flag] upper == (i == 0 || old(b[i-1]) == '-')
+
+//@ func normalizeHeaderKey
+//@   property C05 C32
+//@   modifies b
+//@   ensures[clean]  crlffree(b, len(b))
+//@   ensures[others] forall j in [0,len(b)): iscrlf(old(b[j])) ==> b[j] == 32
+//@   ensures[kept]   disableNormalizing || !alltchar(old(b), len(b)) ==> forall j in [0,len(b)): !iscrlf(old(b[j])) ==> b[j] == old(b[j])
+//@   loop 1:
+//@     invariant[valid] forall j in [0,_i): istchar(b[j])
+
+//@ func caseInsensitiveCompare results r
+//@   property C29 C10
+//@   pure
+//@   ensures[def] r == (len(a) == len(b) && forall j in [0,len(a)): lower20(a[j]) == lower20(b[j]))
+//@   loop 1:
+//@     invariant forall j in [0,i): lower20(a[j]) == lower20(b[j])
+
+//@ spec lower20(c int) int = ((c / 32) % 2 == 1) ? c : c + 32
